@@ -103,6 +103,17 @@ def dml_histories(ctx, cov):
     if len(judged) < len(cases) // 2 or changed < stmts // 10:
         raise vlib.Undecided("statement histories: %d of %d judged, %d of %d statements changed the table - too few to mean anything" % (len(judged), len(cases), changed, stmts))
     bad = semlib.judge_histories(ctx, judged, "c01-dml")
+    # the judge must be able to say no: an accepted history whose last answer is altered (one row dropped, or the outcome turned
+    # round) has to be rejected - otherwise the acceptance above means nothing
+    rejected = {i for i, _ in bad}
+    probe = next((c for n, c in enumerate(judged) if n not in rejected and c["hres"][-1]["rows"] and not c["hres"][-1]["err"]), None)
+    if probe is not None:
+        dropped = dict(probe, hres=probe["hres"][:-1] + [dict(err=False, rows=probe["hres"][-1]["rows"][:-1])])
+        turned = dict(probe, hres=probe["hres"][:-1] + [dict(err=True, rows=probe["hres"][-1]["rows"])])
+        got = semlib.judge_histories(ctx, [dropped, turned], "c01-dml-probe")
+        if len(got) != 2:
+            raise vlib.Undecided("SqlDmlJudge accepts a history whose last answer was altered (%d of 2 rejected)" % len(got))
+        cov["dml_judge_rejects_altered_histories"] = True
     seen = set()
     for i, at in bad:
         c = judged[i]
